@@ -53,7 +53,7 @@ def case_strategy(draw):
         t["perm"] = list(draw(st.permutations(list(range(K)))))
     elif kind == "weights":
         t["cat"] = draw(st.integers(0, ncat - 1))
-        t["factor"] = draw(st.one_of(st.sampled_from([2.0, 0.5, 4.0, 0.125]), gen.floats(1e-3, 1e3)))
+        t["factor"] = draw(st.one_of(st.sampled_from([2.0, 0.5, 4.0, 0.125, 2.0**-56, 2.0**-30, 2.0**40]), gen.floats(1e-3, 1e3)))
     else:
         t["cat"] = draw(st.integers(0, 1)) if base["mode"] == "cross" else 0
         t["mask_seed"] = draw(st.lists(st.booleans(), min_size=8, max_size=8))
